@@ -73,6 +73,7 @@ def corruptions(ev):
                 e = clone(); tt = get(e); n = len(tt["obs"] if ax == "omd" else tt["samp"])
                 tt[ax] = {"has": True, "rows": [[["kX", "s", ["v"]]] for _ in range(n)]}; yield "md_invented:%s:%s" % (ax, where), e
         e = clone(); tt = get(e); tt["type"] = "Corrupt table"; yield "type:" + where, e
+        e = clone(); tt = get(e); tt["tid"] = "corrupt-id"; yield "table_id:" + where, e
         if "lk" in t and t["lk"]["obs"]:
             e = clone(); tt = get(e); tt["lk"]["obs"][0] = 99; yield "stale_lookup:" + where, e
             e = clone(); tt = get(e); tt["lk"]["unknown_found"] = True; yield "unknown_found:" + where, e
@@ -81,6 +82,8 @@ def corruptions(ev):
         e = clone(); e["out"] = "error:Corrupt" if ev["out"] == "ok" else "ok"; yield "outcome", e
     if ev["out"] == "ok" and ev.get("res") in ev.get("post", {}) and ev.get("res") not in ev.get("pre", {}):
         e = clone(); del e["post"][ev["res"]]; e["out"] = "table_error"; yield "outcome_table_error_no_result", e
+    if ev["out"] != "ok" and ev.get("res") and ev.get("res") not in ev.get("post", {}) and ev.get("pre"):
+        e = clone(); e["post"][ev["res"]] = copy.deepcopy(next(iter(ev["pre"].values()))); yield "result_appears_on_failure", e
     obs = ev.get("obs", {})
     for k, v in obs.items():
         if isinstance(v, bool):
@@ -258,6 +261,7 @@ def err_corruptions(ev):
 
 def main():
     n = int(sys.argv[1]) if len(sys.argv) > 1 else 120
+    only = set(sys.argv[2:])
     wd = P.workdir("selftest")
     rng = random.Random(1)
     evaluated = collections.Counter()
@@ -267,7 +271,7 @@ def main():
     machinery = []
     try:
         for name, camp in F.CAMPAIGNS.items():
-            if camp.get("kind") == "recorded":
+            if camp.get("kind") == "recorded" or (only and name not in only):
                 continue
             c = F.run_campaign(dict(camp, keep_traces=True), "quick", 0, wd)
             traces = c["traces"]
@@ -275,17 +279,32 @@ def main():
                 base_fail[f["clause"]] += 1
             for cl, k in c["judge"]["clauses"].items():
                 evaluated[cl] += k
-            sample = rng.sample(traces, min(n, len(traces)))
+            # two traces of every kind of last event (call, outcome, argument shape), then a random fill
+            groups = collections.defaultdict(list)
+            for t in traces:
+                le = t["events"][-1]
+                key = (le.get("call", le.get("act")), str(le.get("out")), json.dumps(sorted((le.get("args") or {}).keys())),
+                       str((le.get("args") or {}).get("kind", "")), str((le.get("args") or {}).get("inplace", "")),
+                       str(le.get("react", ""))[:6], tuple(sorted(str(x.get("react", ""))[:6] for x in t["events"]))[:4]
+                       if camp.get("kind") == "err" else "")
+                groups[key].append(t)
+            sample = []
+            for key, ts in groups.items():
+                sample.extend(rng.sample(ts, min(2, len(ts))))
+            rest = [t for t in traces if t not in sample] if len(traces) < 4000 else traces
+            sample.extend(rng.sample(rest, min(n, len(rest))))
             corrupted, names = [], {}
             tid = 0
             for t in sample:
-                last = t["events"][-1]
-                gen = err_corruptions(last) if camp.get("kind") == "err" else corruptions(last)
-                for cname, ev in gen:
-                    tid += 1
-                    tt = {"id": tid, "pal": t.get("pal"), "events": t["events"][:-1] + [ev]}
-                    corrupted.append(tt)
-                    names[tid] = cname.split(":")[0] + (":" + cname.split(":")[1] if cname.count(":") else "")
+                positions = range(len(t["events"])) if camp.get("kind") == "err" else [len(t["events"]) - 1]
+                for pos in positions:
+                    cur = t["events"][pos]
+                    gen = err_corruptions(cur) if camp.get("kind") == "err" else corruptions(cur)
+                    for cname, ev in gen:
+                        tid += 1
+                        tt = {"id": tid, "pal": t.get("pal"), "events": t["events"][:pos] + [ev] + t["events"][pos + 1:]}
+                        corrupted.append(tt)
+                        names[tid] = cname.split(":")[0] + (":" + cname.split(":")[1] if cname.count(":") else "")
             if not corrupted:
                 continue
             try:
@@ -305,7 +324,7 @@ def main():
     rep = {"corrupted_traces_judged": total, "clauses_evaluated": len(clauses), "clauses_failing_under_some_corruption": len(clauses) - len(never),
            "never_failed": never, "judge_not_total": machinery, "failing_on_uncorrupted_traces": dict(base_fail),
            "which_corruption_fires_which_clause": {c: dict(v.most_common(4)) for c, v in sorted(fired.items())}}
-    with open(os.path.join(ROOT, "seeded", "SELFTEST.json"), "w") as f:
+    with open(os.path.join(ROOT, "seeded", "SELFTEST.json" if not only else "SELFTEST_partial.json"), "w") as f:
         json.dump(rep, f, indent=1)
     print("corrupted traces judged:", total)
     print("clauses evaluated: %d, failing under some corruption: %d" % (len(clauses), len(clauses) - len(never)))
